@@ -335,13 +335,7 @@ func TestShard(t *testing.T) {
 		for _, r := range p.Roots {
 			name := p.RootName(r)
 			w.calls = append(w.calls, name)
-			vars := map[string]string{}
-			if p.Tasks[r.Target].Run != gen.WhenChanged {
-				vars["P"] = fmt.Sprintf(">r%d", r.ID)
-			}
-			if r.X != "" {
-				vars["X"] = r.X
-			}
+			vars := p.RootVars(r)
 			w.vars[name] = vars
 		}
 		runtime.GOMAXPROCS(procs[g%len(procs)])
